@@ -49,6 +49,15 @@ def c07 (cmd : String) (args : List String) : String :=
   let bad := "bad-op"
   let cmd := if cmd = "sorted_mixed" then "sorted" else cmd
   match cmd, args with
+  | "sv", [c] =>
+    match parseCell c with
+    | some .null => "N"
+    | some (.int i f t) => s!"I {i} {showF f} x{hex t}"
+    | some (.flt f t) => s!"F {showF f} x{hex t}"
+    | some (.dt ns) => s!"D {ns}"
+    | some (.bool b) => if b then "B 1" else "B 0"
+    | some (.str t) => "S x" ++ hex t
+    | none => bad
   | "sorted", its :: nc :: rest =>
     -- rows are given in the implementation's output order; answer: is that order sorted?
     match (its.splitOn ",").mapM parseItem, nc.toNat? with
